@@ -636,8 +636,36 @@ def r06_9(ctx, run, rule='R06.9', which=('bytes', 'tree')):
                         possible -= set(c[2])
             if possible & cont:
                 bad += 1
+        # elements dropped before the loop body sees them: the loop runs over an iterator adaptor that skips elements
+        from enumeval import enum_pred
+        DROPPING = ('Iterator::filter', 'Iterator::filter_map', 'Iterator::skip', 'Iterator::take', 'Iterator::step_by', 'Iterator::skip_while',
+                    'Iterator::take_while', 'Iterator::map_while')
+        dropped = None
+        unread_adaptor = None
+        for q in paths:
+            # only adaptors that feed a `for` loop (the argument of into_iter); one consumed by count / collect / any drops nothing from a walk
+            loop_src = [s_ for e2 in q.calls() if called(e2[1], 'IntoIterator::into_iter') for a2 in e2[2] for s_ in subterms(a2)
+                        if s_[0] == 'call' and called(s_[1], *DROPPING)]
+            for e in q.calls():
+                if not called(e[1], *DROPPING) or not any(s_[1] == e[1] and s_[2] == e[2] for s_ in loop_src):
+                    continue
+                clo = [a for a in e[2] if deref_all(a)[0] == 'agg' and isinstance(deref_all(a)[1], tuple) and deref_all(a)[1][0] == 'closure']
+                if called(e[1], 'Iterator::filter') and clo:
+                    cp = deref_all(clo[0])[1][1]
+                    got = {i: enum_pred(f, cp, i, arg=2) for i in cont}
+                    if any(v is False for v in got.values()):
+                        dropped = sorted(vs[i] for i, v in got.items() if v is False)
+                    elif any(v is not True for v in got.values()):
+                        unread_adaptor = canon(e[1]).split('::')[-1]
+                else:
+                    unread_adaptor = canon(e[1]).split('::')[-1]
         loc = f'{b.file}:{b.line}'
-        if bad:
+        if dropped and not bad:
+            run.violation(rule, b.path, 'tree-walker', f'the element loop runs over a filter that drops {" and ".join(dropped)} elements before the recursive call: null members below '
+                          'such an element survive in the text route but not in the JSONB route', loc)
+        elif unread_adaptor and not bad:
+            run.undecided(rule, b.path, 'tree-walker', f'the element loop runs over `{unread_adaptor}`, which may drop elements this rule cannot enumerate: not decided', loc)
+        elif bad:
             run.violation(rule, b.path, 'tree-walker', f'{bad} iteration path(s) skip the recursive call for an element that may be an array or an object: null members below it survive '
                           'in the text route but not in the JSONB route', loc)
         elif n:
